@@ -238,8 +238,20 @@ def c12_contradictory_strict_pair(v):
     if r.get('hostile') == 'contradiction' or r.get('mirrored_pair') == 'contradictory_strict':
         return r.get('merged_to_not_equal') is True
     if r.get('mirrored_pair') == 'contradictory_complement':
-        return r.get('merged_to_not_equal') is False and all(n == (eq_in or 0) for n in eq_out)
+        if r.get('merged_to_not_equal') is False and all(n == (eq_in or 0) for n in eq_out): return True
+        # a text may hold a strict pair as well (A < c with A > c, spelled identically, next to the complement pair): then the strict signature shows
+        return r.get('merged_to_not_equal') is True and _has_identical_strict_pair(r.get('text') or '')
     return False
+
+
+def _has_identical_strict_pair(text):
+    seen = {}
+    for line in text.splitlines():
+        for cmp in (' < ', ' > '):
+            if cmp in line and ' <= ' not in line and ' >= ' not in line:
+                l, r_ = line.split(cmp, 1)
+                seen.setdefault((l.strip(), r_.strip()), set()).add(cmp.strip())
+    return any(v == {'<', '>'} for v in seen.values())
 
 
 @predicate
